@@ -1,0 +1,157 @@
+//! Verification seams (cargo feature `verif`, off by default).
+//!
+//! Nothing in this module exists in a normal build. With the feature on, the interpreter calls
+//! through one process-global table of plain `fn` pointers at a handful of sites (instruction
+//! boundaries, heap allocation / release / dereference, `print`, collector runs). A test harness
+//! installs the table once with [`install`]; while no table is installed every hook is a no-op and
+//! the interpreter behaves exactly as without the feature.
+
+use crate::compiler::OpCode;
+use crate::object::Object;
+use std::sync::OnceLock;
+
+pub use crate::gc::GC;
+
+/// Number of builtin functions known to `OpCode::CallBuiltin`
+pub const BUILTIN_COUNT: u8 = crate::builtins::Builtin::Length as u8 + 1;
+
+/// Number of opcodes (valid opcode bytes are `0..OPCODE_COUNT`)
+pub const OPCODE_COUNT: u8 = OpCode::Halt as u8 + 1;
+
+/// Message carried by the error an injected failure produces
+pub const INJECTED_FAILURE: &str = "verif: injected failure";
+
+/// What the VM looks like at an instruction boundary (before the instruction at `ip` is decoded)
+pub struct StepInfo<'a> {
+    pub ip: usize,
+    pub code: &'a [u8],
+    pub stack: &'a [Object],
+    pub globals: &'a [Object],
+    pub constants: &'a [Object],
+    /// Value of the last completed expression statement (what `Halt` would return)
+    pub last_value: Object,
+    /// Number of call frames, including the top-level one
+    pub frames: usize,
+    /// Base pointer of the current call frame
+    pub bp: usize,
+    /// True if this invocation directly follows a collection requested through `StepAction::Collect`
+    pub after_collect: bool,
+}
+
+#[derive(Copy, Clone, PartialEq, Eq, Debug)]
+pub enum StepAction {
+    /// Execute the instruction
+    Continue,
+    /// Leave `VM::run` with an error from here (the exit path every run-time error takes)
+    Fail,
+    /// Run a collection with the VM's roots at this boundary, then ask again
+    Collect,
+}
+
+#[derive(Copy, Clone, PartialEq, Eq, Debug)]
+pub enum GcEvent {
+    RunBegin,
+    RunEnd,
+    Drop,
+}
+
+pub struct Hooks {
+    /// Called at every instruction boundary
+    pub step: fn(&StepInfo) -> StepAction,
+    /// A heap box was allocated: (address, type tag)
+    pub alloc: fn(usize, u8),
+    /// A heap box is about to be released; returning false vetoes the release
+    pub pre_destroy: fn(usize, u8) -> bool,
+    /// The payload of a heap box was dropped; returning true keeps the (re-initialised, empty) box
+    /// allocated instead of handing it back to the allocator (see [`release_quarantined`])
+    pub post_destroy: fn(usize, u8) -> bool,
+    /// A heap box is about to be dereferenced
+    pub access: fn(usize),
+    /// `print` produced this text; returning true swallows it
+    pub print: fn(&str) -> bool,
+    /// A collector started / finished a collection or is being dropped
+    pub gc: fn(GcEvent, &GC),
+}
+
+static HOOKS: OnceLock<Hooks> = OnceLock::new();
+
+/// Installs the hook table. Can be done once per process; returns false if a table was installed before.
+pub fn install(hooks: Hooks) -> bool {
+    HOOKS.set(hooks).is_ok()
+}
+
+#[inline]
+pub(crate) fn step(info: &StepInfo) -> StepAction {
+    match HOOKS.get() {
+        Some(h) => (h.step)(info),
+        None => StepAction::Continue,
+    }
+}
+
+#[inline]
+pub(crate) fn alloc(o: Object) {
+    if let Some(h) = HOOKS.get() {
+        (h.alloc)(o.as_ptr() as usize, o.tag() as u8)
+    }
+}
+
+#[inline]
+pub(crate) fn pre_destroy(o: Object) -> bool {
+    match HOOKS.get() {
+        Some(h) => (h.pre_destroy)(o.as_ptr() as usize, o.tag() as u8),
+        None => true,
+    }
+}
+
+#[inline]
+pub(crate) fn post_destroy(o: Object) -> bool {
+    match HOOKS.get() {
+        Some(h) => (h.post_destroy)(o.as_ptr() as usize, o.tag() as u8),
+        None => false,
+    }
+}
+
+#[inline]
+pub(crate) fn access(o: Object) {
+    if let Some(h) = HOOKS.get() {
+        (h.access)(o.as_ptr() as usize)
+    }
+}
+
+#[inline]
+pub(crate) fn print(text: &str) -> bool {
+    match HOOKS.get() {
+        Some(h) => (h.print)(text),
+        None => false,
+    }
+}
+
+#[inline]
+pub(crate) fn gc(event: GcEvent, gc: &GC) {
+    if let Some(h) = HOOKS.get() {
+        (h.gc)(event, gc)
+    }
+}
+
+/// Address of the heap box an object points to (meaningless for immediate values)
+pub fn address(o: Object) -> usize {
+    o.as_ptr() as usize
+}
+
+/// Hands a box that `Hooks::post_destroy` kept back to the allocator.
+///
+/// # Safety
+///
+/// `address` and `tag` must be those of a box for which `post_destroy` returned true, exactly once.
+pub unsafe fn release_quarantined(address: usize, tag: u8) {
+    crate::object::verif_dealloc(address as *mut u8, tag)
+}
+
+/// Name and operand widths (in bytes) of the opcode encoded by `byte`, if there is one
+pub fn opcode_info(byte: u8) -> Option<(String, Vec<usize>)> {
+    if byte >= OPCODE_COUNT {
+        return None;
+    }
+    let op = OpCode::from(byte);
+    Some((op.to_string(), op.verif_operands().to_vec()))
+}
